@@ -224,7 +224,7 @@ class Gen:
             s = S()
             if s is None:
                 return False
-            self.add(self.new_h(), "S", "int", [], "defer %d %d" % (h, s), role="defer")
+            self.add(self.new_h(), "S", "int", [s], "defer %d %d" % (h, s), role="defer")
         elif k == "split":
             s = S()
             if s is None:
@@ -232,7 +232,7 @@ class Gen:
             h1 = self.new_h()
             self.add(h1, "S", "list", [s], "map %d %d tolist:%d" % (h1, s, r.randint(0, 3)))
             h2 = self.new_h()
-            self.add(h2, "S", "int", [], "split %d %d" % (h2, h1), role="defer")
+            self.add(h2, "S", "int", [h1], "split %d %d" % (h2, h1), role="defer")
         elif k in ("switch_s", "switch_c"):
             kind = "S" if k == "switch_s" else "C"
             cands = list({self.pick(kind, "int") for _ in range(r.randint(2, 4))} - {None})
@@ -508,3 +508,81 @@ def gen_scripts(seed, count, prof, tag):
     with mp.Pool(n) as pool:
         parts = pool.map(_gen_range, jobs)
     return [x for p in parts for x in p]
+
+
+# ------------------------------------------------------------------ static analysis of scripts
+
+def analyze(lines):
+    """-> dict slot -> dict(op=..., deps=[instantaneous dependencies], outer=cell for switches)"""
+    d = {}
+    alias = {}
+    sel_of = {}     # ref-valued object -> candidate slots
+
+    def A(x):
+        x = int(x)
+        return alias.get(x, x)
+
+    for l in lines:
+        w = l.split()
+        if not w:
+            continue
+        op = w[0]
+        try:
+            if op in ("sink", "sink_co", "csink", "const", "never", "sloop", "cloop"):
+                d[int(w[1])] = dict(op=op, deps=[])
+            elif op in ("map", "map_c"):
+                h, s = int(w[1]), A(w[2])
+                d[h] = dict(op=op, deps=[s])
+                if w[3].startswith("sel:"):
+                    sel_of[h] = [A(x) for x in w[3][4:].split(",")]
+                elif s in sel_of and w[3] == "id":
+                    sel_of[h] = sel_of[s]
+            elif op in ("map_to", "filter", "filter_opt", "once", "hold", "hold_lazy", "accum", "accum_lazy", "collect",
+                        "collect_lazy", "updates", "value"):
+                h, s = int(w[1]), A(w[2])
+                d[h] = dict(op=op, deps=[s])
+                if op in ("hold",) and s in sel_of:
+                    sel_of[h] = sel_of[s]
+            elif op in ("merge", "or_else"):
+                d[int(w[1])] = dict(op=op, deps=[A(w[2]), A(w[3])])
+            elif op == "snapshot":
+                d[int(w[1])] = dict(op=op, deps=[A(w[2])], reads=[A(x) for x in w[4:]])
+            elif op in ("snapshot1", "gate"):
+                d[int(w[1])] = dict(op=op, deps=[A(w[2])], reads=[A(w[3])])
+            elif op == "lift":
+                d[int(w[1])] = dict(op=op, deps=[A(x) for x in w[3:]])
+            elif op == "switch_s":
+                c = A(w[2])
+                d[int(w[1])] = dict(op=op, deps=list(sel_of.get(c, [])), outer=c)
+            elif op == "switch_c":
+                c = A(w[2])
+                d[int(w[1])] = dict(op=op, deps=[c] + list(sel_of.get(c, [])), outer=c)
+            elif op in ("sloop_close", "cloop_close"):
+                d[A(w[1])]["deps"] = [A(w[2])]
+            elif op in ("defer", "split"):
+                d[int(w[1])] = dict(op=op, deps=[], src=A(w[2]))
+            elif op == "router":
+                d[int(w[1])] = dict(op=op, deps=[A(w[2])])
+            elif op == "route":
+                d[int(w[1])] = dict(op=op, deps=[A(w[2])])
+            elif op == "clone":
+                alias[int(w[2])] = A(w[1])
+        except (KeyError, IndexError, ValueError):
+            pass
+    return d, sel_of
+
+
+def inst_reach(d, a, b, seen=None):
+    if a == b:
+        return True
+    seen = seen if seen is not None else set()
+    if a in seen or a not in d:
+        return False
+    seen.add(a)
+    return any(inst_reach(d, x, b, seen) for x in d[a]["deps"])
+
+
+def is_K1(lines):
+    """a switch_s whose outer cell's update depends, within one transaction, on the switch's own output"""
+    d, _ = analyze(lines)
+    return any(v["op"] == "switch_s" and inst_reach(d, v["outer"], h) for h, v in d.items())
